@@ -282,6 +282,8 @@ type inliner struct {
 	imports map[string]string // local name -> path of the file being rewritten
 	addImp  map[string]string
 	failed  string
+	typedInfo  *types.Info
+	typedCalls map[int]*ast.CallExpr // calls of the typed tree of this file, by offset
 	drop    map[ast.Stmt]bool // statements replaced entirely by the inlined text
 	unified map[int]bool      // offsets (typed tree) of `v := e` statements whose v became the destination of the result
 }
@@ -821,6 +823,84 @@ func replaceChild(parent ast.Node, old, repl ast.Expr) {
 	}
 }
 
+// typedCallAt: the call expression at this offset in the typed tree of the file being rewritten.
+func (in *inliner) typedCallAt(off int) *ast.CallExpr {
+	if in.typedCalls == nil {
+		in.typedCalls = map[int]*ast.CallExpr{}
+		for _, p := range in.r.Pkgs {
+			for _, f := range p.Syntax {
+				if in.r.Fset.Position(f.Pos()).Filename != in.fname {
+					continue
+				}
+				in.typedInfo = p.TypesInfo
+				ast.Inspect(f, func(n ast.Node) bool {
+					if c, ok := n.(*ast.CallExpr); ok {
+						in.typedCalls[in.r.Fset.Position(c.Pos()).Offset] = c
+					}
+					return true
+				})
+			}
+		}
+	}
+	return in.typedCalls[off]
+}
+
+// cannotChangeFields: nothing the function does can change a field with one of these names — it assigns no such field,
+// takes no address of one, and calls only builtins, conversions, functions of other packages that get no pointer to the
+// struct (package-level functions of the standard library) and helpers outside the baseline for which the same holds.
+func (in *inliner) cannotChangeFields(fi *FuncInfo, fields map[string]bool, depth int) bool {
+	if depth > 3 || fi.Decl.Body == nil {
+		return false
+	}
+	info := fi.Pkg.TypesInfo
+	ok := true
+	touches := func(e ast.Expr) bool {
+		sel, isSel := ast.Unparen(e).(*ast.SelectorExpr)
+		return isSel && fields[sel.Sel.Name]
+	}
+	ast.Inspect(fi.Decl.Body, func(n ast.Node) bool {
+		switch x := n.(type) {
+		case *ast.AssignStmt:
+			for _, l := range x.Lhs {
+				if touches(l) {
+					ok = false
+				}
+			}
+		case *ast.IncDecStmt:
+			if touches(x.X) {
+				ok = false
+			}
+		case *ast.UnaryExpr:
+			if x.Op == token.AND && touches(x.X) {
+				ok = false
+			}
+		case *ast.RangeStmt:
+			if x.Tok == token.ASSIGN && ((x.Key != nil && touches(x.Key)) || (x.Value != nil && touches(x.Value))) {
+				ok = false
+			}
+		case *ast.CallExpr:
+			if tv, isT := info.Types[x.Fun]; isT && tv.IsType() {
+				return true
+			}
+			switch o := callee(info, x).(type) {
+			case *types.Builtin:
+			case *types.Func:
+				if o.Type().(*types.Signature).Recv() == nil && o.Pkg() != nil && !strings.HasPrefix(o.Pkg().Path(), modPath) {
+					return true // a package-level function of another module
+				}
+				cfi := in.r.Decls[o]
+				if cfi == nil || baselineFuncs[funcKey(o)] || !in.cannotChangeFields(cfi, fields, depth+1) {
+					ok = false
+				}
+			default:
+				ok = false // a function value, an interface method
+			}
+		}
+		return true
+	})
+	return ok
+}
+
 // where the results of an inlined call go
 type inlDest struct {
 	kind   string     // "temps" | "assign" | "return"
@@ -931,12 +1011,63 @@ func (in *inliner) inline(site inlSite, call *ast.CallExpr, dest inlDest) ([]ast
 		return true
 	})
 	names := map[types.Object]string{}
+	// the typed call (for the kinds of its argument expressions)
+	typedCall := in.typedCallAt(in.off(call.Pos()))
+	argIndex := map[ast.Expr]int{}
+	for i, a := range call.Args {
+		argIndex[a] = i
+	}
+	// argVar: the argument is a variable, or a chain of field selections on a variable that the callee cannot change
+	// (x.f.g, with a callee that neither assigns a field of that name nor calls anything that could): such an argument
+	// replaces the parameter
 	argVar := func(e ast.Expr) (string, bool) {
-		id, ok := ast.Unparen(e).(*ast.Ident)
-		if !ok || id.Name == "_" || id.Name == "nil" || id.Name == "true" || id.Name == "false" || id.Name == "iota" {
+		e = ast.Unparen(e)
+		if id, ok := e.(*ast.Ident); ok {
+			if id.Name == "_" || id.Name == "nil" || id.Name == "true" || id.Name == "false" || id.Name == "iota" {
+				return "", false
+			}
+			return id.Name, true
+		}
+		if typedCall == nil {
 			return "", false
 		}
-		return id.Name, true
+		var typed ast.Expr
+		if i, ok := argIndex[e]; ok && i < len(typedCall.Args) {
+			typed = ast.Unparen(typedCall.Args[i])
+		} else if sel, ok := ast.Unparen(call.Fun).(*ast.SelectorExpr); ok && ast.Unparen(sel.X) == e {
+			if tsel, ok := ast.Unparen(typedCall.Fun).(*ast.SelectorExpr); ok {
+				typed = ast.Unparen(tsel.X)
+			}
+		}
+		if typed == nil {
+			return "", false
+		}
+		cinfo := in.typedInfo
+		fields := map[string]bool{}
+		cur := typed
+		for {
+			sel, ok := cur.(*ast.SelectorExpr)
+			if !ok {
+				break
+			}
+			s := cinfo.Selections[sel]
+			if s == nil || s.Kind() != types.FieldVal {
+				return "", false
+			}
+			fields[sel.Sel.Name] = true
+			cur = ast.Unparen(sel.X)
+		}
+		root, ok := cur.(*ast.Ident)
+		if !ok || len(fields) == 0 {
+			return "", false
+		}
+		if _, isVar := cinfo.Uses[root].(*types.Var); !isVar {
+			return "", false
+		}
+		if !in.cannotChangeFields(fi, fields, 0) {
+			return "", false
+		}
+		return types.ExprString(typed), true
 	}
 	var pre, inner []ast.Stmt
 	declVar := func(name string, typ ast.Expr, val ast.Expr) ast.Stmt {
